@@ -63,7 +63,12 @@ pub fn run_target(target: &str, data: &[u8]) -> Option<(Failure, Value)> {
             let pj = serde_json::to_value(&c.a).unwrap_or(Value::Null);
             type Chk = fn(&crate::gen::Phys, &mut Ctx) -> Result<(), Failure>;
             let others: [(&str, Chk); 5] = [("C07", super::c07::check), ("C08", super::c08::check), ("C10", super::c10::check), ("C11", super::c11::check), ("C02", super::c02::check)];
+            // the tropical comparisons of C07, C11, C02 presuppose generic momenta (DESIGN section 10, domain limits)
+            let generic = !crate::oracle::sym::Sym::new(&c.a.g, &c.a.kin.inflow, &c.a.kin.masses).degenerate_momenta;
             for (id, chk) in others {
+                if !generic && matches!(id, "C07" | "C11" | "C02") {
+                    continue;
+                }
                 if let Err(f) = chk(&c.a, &mut ctx) {
                     return Some((Failure::new(format!("{id}:{}", f.signature), f.message), pj));
                 }
